@@ -3,6 +3,7 @@
 From Verif Require Import Base.Util Model.Runner Model.RetryQueue Model.Pipeline
      Proofs.RunnerProofs Proofs.RetryQueueProofs Proofs.PipelineProofs Gen.Generated.
 From Verif Require Import Base.GenIR Gen.GeneratedTr Proofs.GenTrRetry.
+From Verif Require Import Base.GenIR Gen.GeneratedTr Proofs.GenTrPost.
 Open Scope N_scope.
 
 (* Eligible results: for every flow, cache, payload list, pipeline, batch-failure pattern,
@@ -220,6 +221,77 @@ Theorem C12_gen_retry_Size_decisions :
   match g_rq_size_body (q_pend (snd kr)) (expired dexp (snd kr) now) with ([1], Fall) => true | _ => false end.
 Proof. exact gen_rq_size_body. Qed.
 Print Assumptions C12_gen_retry_Size_decisions.
+
+End GenTie.
+
+Section GenTie.
+Local Open Scope Z_scope.
+(* ---- Tie to the source by translation (Gen/GeneratedTr.v, regenerated from /repo on every run by gen/translate.go) ----
+   g_* are the decision terms translated from the CURRENT Go code: every condition, the branch structure and which
+   white-listed effect statement runs on which path.  The theorems below state that the model's functions - about
+   which every theorem above speaks - are the interpretation of these terms. *)
+(* eligible / metadata post-processors: exactly the successfully checked eligible results (the model's elig_ok) are staged / proposed *)
+Theorem C12_gen_eligible_routing :
+  forall r,
+  g_pp_eligible_body (Z.of_N (r_state r)) (r_elig r) = (if elig_ok r then ([1; 2], Fall) else ([], Fall)) /\
+  g_pp_metadata_body (Z.of_N (r_state r)) (r_elig r) = (if elig_ok r then ([1], Fall) else ([], Fall)).
+Proof. exact gen_pp_eligible. Qed.
+Print Assumptions C12_gen_eligible_routing.
+
+(* ineligible post-processor: exactly the successfully checked ineligible results (inelig_ok) reach the state updater; its error is joined, the loop goes on *)
+Theorem C12_gen_ineligible_routing :
+  forall r (upd_err : bool),
+  g_pp_ineligible_body (Z.of_N (r_state r)) (r_elig r) upd_err =
+  if inelig_ok r then (if upd_err then ([1; 2], Cont) else ([1; 3], Fall)) else ([], Fall).
+Proof. exact gen_pp_ineligible. Qed.
+Print Assumptions C12_gen_ineligible_routing.
+
+(* retry post-processor: exactly the retryable failures (retry_fail); own payload looked up, enqueued with the result's interval *)
+Theorem C12_gen_retry_routing :
+  forall r (found enq_ok : bool),
+  g_pp_retry_body (Z.of_N (r_state r)) (r_retry r) found enq_ok =
+  if retry_fail r then
+    (if found then (if enq_ok then ([1; 3; 4; 5], Fall) else ([1; 3; 5], Fall)) else ([1; 2], Cont))
+  else ([], Fall).
+Proof. exact gen_pp_retry. Qed.
+Print Assumptions C12_gen_retry_routing.
+
+(* payloadOf: by position only for a result without work id (bounds checked); else exact match, else first with the same work id, else none *)
+Theorem C12_gen_payloadOf_decisions :
+  forall (no_wid : bool) pos n found,
+  g_pp_payloadOf no_wid pos n found =
+  if no_wid then (if pos <? n then ([], RetO 1) else ([], RetO 2))
+  else if found <? 0 then ([1], RetO 2) else ([1], RetO 3).
+Proof. exact gen_pp_payloadOf. Qed.
+Print Assumptions C12_gen_payloadOf_decisions.
+
+(* payloadOf, loop body *)
+Theorem C12_gen_payloadOf_loop :
+  forall p_wid r_wid p_blk r_blk p_hash r_hash found,
+  g_pp_payloadOf_body p_wid r_wid p_blk r_blk p_hash r_hash found =
+  if negb (p_wid =? r_wid) then ([], Cont)
+  else if (p_blk =? r_blk) && (p_hash =? r_hash) then ([], RetO 1)
+  else if found <? 0 then ([1], Fall) else ([], Fall).
+Proof. exact gen_pp_payloadOf_body. Qed.
+Print Assumptions C12_gen_payloadOf_loop.
+
+(* the model's find_exact is the exact-match search of that loop *)
+Theorem C12_gen_payloadOf_model :
+  forall r p t,
+  find_exact r (p :: t) =
+  match g_pp_payloadOf_body (Z.of_N (pl_wid p)) (Z.of_N (r_wid r)) (Z.of_N (pl_blk p)) (Z.of_N (r_blk r))
+                            (Z.of_N (pl_hash p)) (Z.of_N (r_hash r)) (-1) with
+  | (_, RetO 1) => Some p
+  | _ => find_exact r t
+  end.
+Proof. exact gen_pp_payloadOf_model. Qed.
+Print Assumptions C12_gen_payloadOf_model.
+
+(* combined post-processor: every post-processor of the chain runs *)
+Theorem C12_gen_combine :
+  g_pp_combine_body = ([1], Fall).
+Proof. exact gen_pp_combine. Qed.
+Print Assumptions C12_gen_combine.
 
 End GenTie.
 
